@@ -2,6 +2,7 @@ package main
 
 import (
 	"context"
+	"crypto/sha256"
 	"encoding/hex"
 	"fmt"
 	"os"
@@ -73,12 +74,18 @@ func initBLS() {
 	}
 }
 
-// interopKeys returns the (private, public) interop key pairs shipped in testing/daemon.
+// interopKeys returns the (private, public) key pairs used for test accounts: the 32 interop keys
+// shipped in testing/daemon followed by keys derived from a fixed hash chain (for large batches).
 func interopKeys() [][2][]byte {
 	keyTableOnce.Do(func() {
 		initBLS()
 		keyTable = map[string][]byte{}
 		all := append(append([][]byte{}, daemon.Wallet1Keys...), daemon.Wallet2Keys...)
+		for i := 0; i < 480; i++ {
+			h := sha256.Sum256([]byte(fmt.Sprintf("dirk-verif-key-%d", i)))
+			h[0] &= 0x3f
+			all = append(all, h[:])
+		}
 		for _, sk := range all {
 			priv, err := e2types.BLSPrivateKeyFromBytes(sk)
 			if err != nil {
